@@ -148,6 +148,7 @@ def strategy(tier):
     return st.fixed_dictionaries({
         's': s_any, 'place': st.sampled_from(PLACES), 'width': width,
         'ribbon': st.one_of(width, st.just(10 ** 6)), 'indent': st.sampled_from([1, 2, 4, 4, 8]),
+        'opts': st.tuples(S['neutral'], st.booleans()).map(lambda p: dict(p[0], sort_dict_keys=p[1])),
     }).map(lambda c: dict(c, ribbon=c['width'] if c['ribbon'] == 10 ** 6 else c['ribbon']))
 
 
@@ -167,6 +168,7 @@ def oracle(case):
     where = case['place']
     v = place(s, where)
     cfg = {'width': case['width'], 'ribbon_width': case['ribbon'], 'indent': case['indent']}
+    cfg.update(case.get('opts') or {})
     cap = 400 * (len(s) + 60) * 3
     if len(s) > 10 and (case['width'] <= 12 or len(s) > 100 or core.digest(case)[0] < 40):
         # Termination budget. Only a literal longer than the 10-column floor can reach the
